@@ -6,7 +6,7 @@ import re
 from .. import AnalysisError
 from ..cfg import ALL_KINDS, NORMAL_KINDS, iter_own
 from ..guards import canon
-from ..lib import inlined, guard_forms, key_of, render
+from ..lib import inlined, inlined_guards, guard_forms, key_of, render
 from ..report import describe, rule
 
 P = "C20"
@@ -242,6 +242,8 @@ def _fold(e, rc, status):
         if l == "self.return_code" and rgt == "0":
             table = {ast.Eq: rc == 0, ast.NotEq: rc != 0, ast.Gt: rc > 0, ast.GtE: rc >= 0, ast.Lt: rc < 0, ast.LtE: rc <= 0}
             return table.get(type(op))
+        if rgt == "self.status" and l.startswith("JobCompletionStatus.") and l.endswith(".value"):
+            l, rgt = rgt, l
         if l == "self.status" and rgt.startswith("JobCompletionStatus.") and rgt.endswith(".value"):
             name = rgt.split(".")[1]
             if isinstance(op, ast.Eq):
@@ -404,9 +406,11 @@ def c20_4(ctx, r):
                         "appears exactly once in the consolidated event summary with all fields intact")
     # save: every non-resource event list is written in full
     sv = ctx.fn("EventsSummary._save_events_summary", "C20.4")
-    comps = [n for n in iter_own(sv.node) if isinstance(n, ast.ListComp) and "to_dict" in ast.unparse(n.elt)]
-    r.check(bool(comps) and all(not g.ifs for c in comps for g in c.generators), "every event of a name is written (no filter)", key_of(sv, "filter"), sv.loc(),
-            "_save_events_summary filters events while writing")
+    from ..lib import collections_from
+
+    cols = [c for c in collections_from(ctx, sv, lambda e: isinstance(e, ast.Name)) if "to_dict" in c["elt"]]
+    r.check(bool(cols) and all(not c["conds"] for c in cols), "every event of a name is written (no filter)", key_of(sv, "filter"), sv.loc(),
+            "_save_events_summary filters the events it writes: events are missing from the consolidated summary")
 
 
 @rule(P, "C20.5", "T9", "event writer and reader agree on keys (every attribute written is read back into the same parameter)", min_obligations=7)
@@ -447,8 +451,17 @@ def c20_5(ctx, r):
     params = set(init.params[1:]) | {"timestamp", "data"}
     r.check(set(read) <= params, "deserialize passes only constructor parameters", key_of(de, "unknown parameters"), de.loc(), f"deserialize passes {sorted(set(read) - params)}")
     dv = ctx.fn("events.deserialize_event", "C20.5")
-    txt = ast.unparse(dv.node)
-    r.check("data['event_class'] == 'StructuredLogEvent'" in txt and "StructuredLogEvent.deserialize(data)" in txt and "StructuredErrorLogEvent.deserialize(data)" in txt and "raise" in txt,
+    cfgd = ctx.cfg(dv)
+    dp = dv.params[0]
+    seen_cls, okd = set(), True
+    for n in cfgd.nodes:
+        if n.kind == "stmt" and isinstance(n.ast, ast.Return) and isinstance(n.ast.value, ast.Call) and isinstance(n.ast.value.func, ast.Attribute) and n.ast.value.func.attr == "deserialize":
+            cname = ast.unparse(n.ast.value.func.value)
+            forms = {f.replace('"', "'") for f, p in inlined_guards(ctx, dv, n) if p}
+            okd = okd and (f"{dp}['event_class']=='{cname}'" in forms or f"'{cname}'=={dp}['event_class']" in forms) and [ast.unparse(x) for x in n.ast.value.args] == [dp]
+            seen_cls.add(cname)
+    raises = [n for n in cfgd.nodes if n.kind == "stmt" and isinstance(n.ast, ast.Raise)]
+    r.check(okd and seen_cls == {"StructuredLogEvent", "StructuredErrorLogEvent"} and bool(raises),
             "the class is chosen by the written event_class; unknown classes raise", key_of(dv, "dispatch"), dv.loc(), "deserialize_event no longer dispatches on event_class / no longer raises on unknown classes")
     # timestamp given on read is kept (not replaced by now)
     ok = any(isinstance(n, ast.If) and ast.unparse(n.test).replace("'", '"') == '"timestamp" in kwargs' and "kwargs.pop" in ast.unparse(n.body[0]) for n in iter_own(init.node))
@@ -508,7 +521,10 @@ def c20_8(ctx, r):
                 c = st.value if isinstance(st, ast.Expr) else None
                 if isinstance(c, ast.Call) and isinstance(c.func, ast.Attribute) and c.func.attr == "update" and isinstance(c.func.value, ast.Subscript) and isinstance(c.func.value.slice, ast.Constant) \
                         and c.func.value.slice.value in ("average", "minimum", "maximum") and c.args:
-                    frames = [ast.unparse(x.value) for x in ast.walk(c.args[0]) if isinstance(x, ast.Subscript) and isinstance(x.value, ast.Name)]
+                    arg0 = c.args[0]
+                    for nd in ctx.nodes_of(f, c):
+                        arg0 = __import__("jcheck.lib", fromlist=["inline_locals"]).inline_locals(ctx, f, c.args[0], nd)
+                    frames = [ast.unparse(x.value) for x in ast.walk(arg0) if isinstance(x, ast.Subscript) and isinstance(x.value, ast.Name)]
                     aggs = [x.func.attr for x in ast.walk(c.args[0]) if isinstance(x, ast.Call) and isinstance(x.func, ast.Attribute) and x.func.attr in ("mean", "min", "max")]
                     ups[c.func.value.slice.value] = (frames[0] if frames else None, aggs[0] if aggs else None, st)
             if len(ups) < 3:
